@@ -7,7 +7,9 @@ package main
 //             message lists, each applied under many whitelists through a RECORDING bowl and a
 //             RECORDING old-build pool; also evaluated by the model (Patch/Patcher.v). A whitelist
 //             is a map[int64]bool: each selected set is passed in one of its spellings (absent vs
-//             explicitly-false indices, keys outside the build) - see spellings()
+//             explicitly-false indices, keys outside the build) - see spellings(). Every whitelist
+//             is applied twice: by one Resume(nil), and stopped at checkpoints and resumed on the
+//             same patcher under a save/stop schedule (c17_resume.go); same claims on both
 //   reinterp  a message marshalled as type T and unmarshalled as each of the four types vs the
 //             schema-derived table of Patch/Reinterp.v
 
@@ -58,6 +60,11 @@ type wlRun struct {
 	touched int64
 	events  []lib.Ev
 	files   [][]byte // content of every new file (by index) after the run
+	// stop/resume runs (c17_resume.go): the same patcher is stopped at checkpoints and resumed
+	interrupted bool
+	sched       string
+	legs        []c17Leg // one per resumption
+	norm        []lib.Ev // events without the re-open calls of the resumed legs (what the model sees)
 }
 
 // neededOld returns, per new file index, the set of old file indices its series refers to.
@@ -166,6 +173,28 @@ func runWhitelists(c *Ctx, p *wlPatch) error {
 		}
 		return r
 	}
+	// the same application, stopped at checkpoints and resumed on the same patcher
+	runI := func(w wlSpec, has bool, sch c17Sched) wlRun {
+		var m map[int64]bool
+		if has {
+			m = w.mapOf()
+		}
+		r := wlRun{wl: w.sel, neg: w.neg, rep: w.rep, hasWl: has, interrupted: true, sched: sch.String()}
+		var rec *lib.Recorder
+		r.cls, r.msg = lib.Guard(func() error {
+			var err error
+			rec, r.touched, r.legs, _, err = applyStopResume(p.patch, p.oldDir, outDir, m, sch)
+			return err
+		})
+		if rec != nil {
+			r.events = rec.Events
+			r.norm = stripReopen(rec.Events, r.legs)
+		}
+		if r.cls == "ok" {
+			r.files = readOutFiles(outDir, p.newC)
+		}
+		return r
+	}
 	full := run(wlSpec{}, false)
 	runs = append(runs, full)
 	wlMaps := make([]string, len(p.wls))
@@ -173,13 +202,27 @@ func runWhitelists(c *Ctx, p *wlPatch) error {
 		runs = append(runs, run(w, true))
 		wlMaps[i] = w.String()
 	}
+	// (only runs that are GIVEN a whitelist: C17 says nothing about what an application without
+	// one reports, the uninterrupted run without whitelist above is the "full application" the
+	// contents are compared with)
+	// At most maxInterrupted whitelists per patch are applied this second way (all of them in the
+	// quick tier's samples; every k-th plus the last one, the full set, when all subsets are tried).
+	const maxInterrupted = 16
+	scheds := c17Scheds(c.Seed, p.name, len(p.wls))
+	step := (len(p.wls) + maxInterrupted - 1) / maxInterrupted
+	var iruns []wlRun
+	for i, w := range p.wls {
+		if step <= 1 || i%step == int(c.Seed)%step || i == len(p.wls)-1 {
+			iruns = append(iruns, runI(w, true, scheds[i]))
+		}
+	}
 	oracle, finding := "", ""
 	if p.claims {
 		var need []map[int64]bool
 		if p.dp != nil {
 			need = neededOld(p.dp)
 		}
-		for _, r := range runs {
+		for _, r := range append(append([]wlRun{}, runs...), iruns...) {
 			bad := checkWlRun(p, &r, &full, need)
 			if bad != "" && oracle == "" {
 				oracle = bad
@@ -208,11 +251,7 @@ func runWhitelists(c *Ctx, p *wlPatch) error {
 		}
 	}
 	var rs []string
-	obsRuns := make([]map[string]interface{}, 0, len(runs))
-	for i, r := range runs {
-		if !inModel[i] {
-			continue
-		}
+	coqRun := func(r *wlRun, trace []lib.Ev) string {
 		wl := "None"
 		if r.hasWl {
 			zs := make([]string, len(r.wl))
@@ -221,22 +260,75 @@ func runWhitelists(c *Ctx, p *wlPatch) error {
 			}
 			wl = "(Some " + lib.CoqList(zs) + ")"
 		}
-		evs := make([]string, len(r.events))
-		for k, e := range r.events {
+		evs := make([]string, len(trace))
+		for k, e := range trace {
 			evs[k] = e.Coq()
 		}
 		files := "[]"
 		if r.cls == "ok" {
 			files = coqRleList(r.files)
 		}
-		rs = append(rs, fmt.Sprintf("(%s, (%s, %s, %s, %s))", wl, lib.CoqZ(classCode(r.cls)), lib.CoqZ(r.touched), lib.CoqList(evs), files))
-		if len(obsRuns) < 12 {
-			es := make([]string, len(r.events))
-			for k, e := range r.events {
-				es[k] = e.String()
-			}
-			obsRuns = append(obsRuns, map[string]interface{}{"whitelist": wlString(r), "spelling": r.rep, "class": r.cls, "touched": r.touched, "trace": strings.Join(es, " ")})
+		return fmt.Sprintf("(%s, (%s, %s, %s, %s))", wl, lib.CoqZ(classCode(r.cls)), lib.CoqZ(r.touched), lib.CoqList(evs), files)
+	}
+	evString := func(evs []lib.Ev) string {
+		es := make([]string, len(evs))
+		for k, e := range evs {
+			es[k] = e.String()
 		}
+		return strings.Join(es, " ")
+	}
+	obsRuns := make([]map[string]interface{}, 0, len(runs))
+	for i := range runs {
+		r := &runs[i]
+		if !inModel[i] {
+			continue
+		}
+		rs = append(rs, coqRun(r, r.events))
+		if len(obsRuns) < 12 {
+			obsRuns = append(obsRuns, map[string]interface{}{"whitelist": wlString(*r), "spelling": r.rep, "class": r.cls, "touched": r.touched, "trace": evString(r.events)})
+		}
+	}
+	// stop/resume runs: the model has no checkpoints, so what it must reproduce is the run with
+	// the re-open calls of the resumed legs taken out (class, touched count, that trace, every
+	// file). The oracle has judged all of them; the model gets those that were actually stopped
+	// first (2 per patch in the quick tier, 3 otherwise).
+	var order []int
+	for pass := 0; pass < 2 && len(iruns) > 0; pass++ {
+		for k := range iruns {
+			i := (k + int(c.Seed)) % len(iruns)
+			if (len(iruns[i].legs) > 0) == (pass == 0) {
+				order = append(order, i)
+			}
+		}
+	}
+	modelIRuns := 3
+	if c.Tier == "quick" {
+		modelIRuns = 2
+	}
+	stopsTotal := 0
+	obsIRuns := make([]map[string]interface{}, 0, len(iruns))
+	for k, i := range order {
+		r := &iruns[i]
+		stopsTotal += len(r.legs)
+		if k < modelIRuns {
+			rs = append(rs, coqRun(r, r.norm))
+		}
+		if len(obsIRuns) < 12 {
+			at := make([]string, len(r.legs))
+			for j, l := range r.legs {
+				kind := "rsync"
+				if l.bsdiff {
+					kind = fmt.Sprintf("bsdiff<-%d", l.target)
+				}
+				at[j] = fmt.Sprintf("file %d (%s), touched so far %d", l.fileIndex, kind, l.touched)
+			}
+			obsIRuns = append(obsIRuns, map[string]interface{}{"whitelist": wlString(*r), "spelling": r.rep, "schedule": r.sched, "stops": len(r.legs), "stoppedIn": at,
+				"class": r.cls, "touched": r.touched, "trace": evString(r.events), "inModel": k < modelIRuns})
+		}
+	}
+	p.input["stopResume"] = fmt.Sprintf("%d whitelisted runs stopped and resumed on the same patcher, %d stops in all", len(iruns), stopsTotal)
+	if stopsTotal > 0 {
+		p.class += "/stopped"
 	}
 	p.input["whitelists"] = len(p.wls)
 	p.input["whitelistMaps"] = wlMaps
@@ -257,7 +349,7 @@ func runWhitelists(c *Ctx, p *wlPatch) error {
 		p.class += "/oracle-only(too many writes for the model)"
 	}
 	c.Out.Emit(&lib.Case{Group: group, Class: p.class, Nontrivial: len(p.newC.Files) >= 2 && len(p.wls) >= 2,
-		Input: p.input, Obs: map[string]interface{}{"runs": obsRuns}, Oracle: oracle, Finding: finding,
+		Input: p.input, Obs: map[string]interface{}{"runs": obsRuns, "stopResumeRuns": obsIRuns}, Oracle: oracle, Finding: finding,
 		Coq: fmt.Sprintf("($ID%%N, %s, %s, %s, %s, %s, %s)", lib.CoqBool(p.claims), lib.CoqContainer(p.oldC, d), lib.CoqContainer(p.newC, d),
 			coqRleList(oldContents(p.oldC, p.old)), lib.CoqMsgs(p.msgs), lib.CoqList(rs))})
 	return nil
@@ -273,6 +365,9 @@ func wlString(r wlRun) string {
 // checkWlRun restates C17 on one run. need may be nil (no independent decoding available).
 func checkWlRun(p *wlPatch, r, full *wlRun, need []map[int64]bool) string {
 	tag := "whitelist " + wlString(*r) + ": "
+	if r.interrupted {
+		tag = fmt.Sprintf("whitelist %s, stopped at %d checkpoints and resumed on the same patcher (%s): ", wlString(*r), len(r.legs), r.sched)
+	}
 	if r.cls != "ok" {
 		return tag + "patcher " + r.cls + ": " + firstLine(r.msg)
 	}
@@ -597,6 +692,78 @@ func c17Real(c *Ctx) error {
 			return err
 		}
 	}
+	return c17RealInterleaved(c)
+}
+
+// interleave makes one file of the new build a MANY-op file: at the path of an old file that has
+// a full block, the new content is 2-4 pieces "one whole block of some old file, then a short
+// fresh run" - the rsync series of that file alternates BLOCK_RANGE and DATA ops (and the bsdiff
+// series rediff makes of it has several controls), so the relay loops go round often enough for
+// a save consumer to be offered checkpoints INSIDE the file (a seek source hands one out per
+// loop iteration from the second on; the single-edit files of GenRunPair have 1-3 ops). Such a
+// file is also the longest thing skipFile has to read past when it is not selected.
+func interleave(r *lib.Rng, old, nw *lib.Build, classes []lib.FileClass) []lib.FileClass {
+	var withBlock []lib.Entry
+	for _, f := range old.Files() {
+		if len(f.Data) >= lib.BS {
+			withBlock = append(withBlock, f)
+		}
+	}
+	if len(withBlock) == 0 {
+		return classes
+	}
+	at := withBlock[r.Intn(len(withBlock))].Path
+	var d []byte
+	for k, n := 0, r.Range(2, 4); k < n; k++ {
+		f := withBlock[r.Intn(len(withBlock))]
+		b := r.Intn(len(f.Data) / lib.BS)
+		d = append(d, f.Data[b*lib.BS:(b+1)*lib.BS]...)
+		v := byte(6 + r.Intn(3)) // symbols no old file contains
+		for i, l := 0, []int{1, 7, 1000}[r.Intn(3)]; i < l; i++ {
+			d = append(d, v)
+		}
+	}
+	nw.Put(lib.Entry{Path: at, Kind: "file", Data: d})
+	var out []lib.FileClass
+	seen := false
+	for _, cl := range classes {
+		if cl.Path == at {
+			cl.Class, seen = "interleaved", true
+		}
+		out = append(out, cl)
+	}
+	if !seen {
+		out = append(out, lib.FileClass{Path: at, Class: "interleaved"})
+	}
+	return out
+}
+
+// c17RealInterleaved: pairs of c17Real's kind plus one interleaved file, under the settings whose
+// sources can checkpoint anywhere (no compression, 2 pairs in 3) or at block boundaries (gzip,
+// brotli in rotation): these are the patches on which stopping and resuming a whitelisted
+// application (c17_resume.go) happens inside files, several times per file.
+func c17RealInterleaved(c *Ctx) error {
+	r := c.Rng.Fork()
+	n := nFor(c, 4, 36, 4)
+	for i := 0; i < n; i++ {
+		cr := r.Fork()
+		old, nw, classes := lib.GenRunPair(cr, lib.RunPairOpts{MaxOld: 3, MaxNew: 5, MaxSize: 2*lib.BS + 17, AllKinds: true})
+		classes = interleave(cr, old, nw, classes)
+		if len(nw.Files()) > 6 {
+			continue
+		}
+		comp := lib.Compressions[0]
+		if i%3 == 2 {
+			comp = lib.Compressions[1+(i/3+int(c.Seed))%(len(lib.Compressions)-1)]
+		}
+		if err := c17RealPair(c, fmt.Sprintf("c17-il-plain-%d", i), cr, old, nw, classes, comp, false, lib.OptParams{}, c.Thorough(), 7, "interleaved/"); err != nil {
+			return err
+		}
+		opt := lib.OptParams{Partitions: cr.Intn(3), Concurrency: cr.Range(0, 2), ForceMapAll: cr.Bool(), Comp: comp}
+		if err := c17RealPair(c, fmt.Sprintf("c17-il-opt-%d", i), cr, old, nw, classes, comp, true, opt, c.Thorough(), 7, "interleaved/"); err != nil {
+			return err
+		}
+	}
 	return nil
 }
 
@@ -618,6 +785,34 @@ func c17Corpus(c *Ctx) error {
 	for k, comp := range []lib.Compression{lib.Compressions[0], lib.Compressions[4]} {
 		if err := c17RealPair(c, fmt.Sprintf("c17-corpus-2049-%d", k), cr, old, nw, classes, comp, true,
 			lib.OptParams{Comp: lib.Compressions[(k+1)%len(lib.Compressions)]}, true, 8, "corpus/bsdiff-target-2049/"); err != nil {
+			return err
+		}
+	}
+	return c17CorpusStopResume(c)
+}
+
+// c17CorpusStopResume: the input on which seeded variant C17-4 (touched counter bumped on entry to
+// processFile, i.e. once per Resume call that works on the file) was first seen: uncompressed
+// patches, plain and optimized, whose patched files have enough ops (controls) for a seek source
+// to hand out checkpoints inside them; every subset, each also stopped and resumed on the same
+// patcher (c17_resume.go). New build: a many-op file, a whole-file copy, a second patched file,
+// a brand-new file and an empty file.
+func c17CorpusStopResume(c *Ctx) error {
+	B := lib.BS
+	old, nw := &lib.Build{}, &lib.Build{}
+	old.Put(lib.Entry{Path: "a.bin", Kind: "file", Data: cat(blk(1, B), blk(2, B), blk(3, 11))})
+	old.Put(lib.Entry{Path: "b.bin", Kind: "file", Data: cat(blk(4, B), blk(5, 5))})
+	old.Put(lib.Entry{Path: "c.bin", Kind: "file", Data: cat(blk(0, B), blk(3, B), blk(1, 1))})
+	nw.Put(lib.Entry{Path: "a.bin", Kind: "file", Data: cat(blk(1, B), blk(7, 1), blk(2, B), blk(8, 7), blk(1, B), blk(6, 1000))})
+	nw.Put(lib.Entry{Path: "b.bin", Kind: "file", Data: cat(blk(4, B), blk(5, 5))})
+	nw.Put(lib.Entry{Path: "c.bin", Kind: "file", Data: cat(blk(8, 3), blk(0, B), blk(3, B), blk(7, 2))})
+	nw.Put(lib.Entry{Path: "d.bin", Kind: "file", Data: blk(2, 33)})
+	nw.Put(lib.Entry{Path: "e.bin", Kind: "file", Data: []byte{}})
+	classes := []lib.FileClass{{Path: "a.bin", Class: "interleaved"}, {Path: "b.bin", Class: "same"}, {Path: "c.bin", Class: "patched"}, {Path: "d.bin", Class: "new"}, {Path: "e.bin", Class: "empty"}}
+	cr := c.Rng.Fork()
+	for k, optimized := range []bool{false, true} {
+		if err := c17RealPair(c, fmt.Sprintf("c17-corpus-stop-%d", k), cr, old, nw, classes, lib.Compressions[0], optimized,
+			lib.OptParams{Comp: lib.Compressions[0]}, true, 8, "corpus/stop-resume/"); err != nil {
 			return err
 		}
 	}
